@@ -361,6 +361,22 @@ def corpus(spec_id):
             else:
                 p.add_trajectory_constraint(em.Always(em.Or(em.Not(f), g)))
             out.append(HandGen(p, "tcr-" + kind))
+        # finding C06-tcr-nested-fluent-in-constraint: a constraint atom whose ARGUMENT is a fluent, p(loc); the
+        # regression only looks at effects on the literal p(loc) itself, so `move: loc := o` goes unnoticed
+        for kind in ("always", "sometime"):
+            env, tm, em, T, p, objs = base("tcr-nested-fluent-" + kind)
+            loc = Fluent("loc", T, OrderedDict(), env)
+            p.add_fluent(loc, default_initial_value=objs[0])
+            pf = bfl(env, tm, p, "p", False, x=T)
+            done = bfl(env, tm, p, "done", False)
+            # always: p true at the start location only; sometime: p true at the destination only
+            p.set_initial_value(pf(objs[0] if kind == "always" else objs[1]), True)
+            mv = InstantaneousAction("move", _env=env)
+            mv.add_effect(loc, objs[1])
+            mv.add_effect(done, True)
+            p.add_action(mv); p.add_goal(done)
+            p.add_trajectory_constraint(em.Always(pf(loc)) if kind == "always" else em.Sometime(pf(loc)))
+            out.append(HandGen(p, "tcr-nested-fluent-" + kind))
     if spec_id == "undefined-initial-numeric-remover":
         env, tm, em, T, p, objs = base("uinr-undefined-chain")
         x, y = ifl(env, tm, p, "x", None), ifl(env, tm, p, "y", None)
@@ -1116,6 +1132,17 @@ def shape_tags(problem):
         conds += list(tc.args)
     if any(quantifier_under_negation(c) for c in conds):
         tags.add("quantifier-under-negation")
+
+    def _has_fluent(e):
+        return e.is_fluent_exp() or any(_has_fluent(x) for x in e.args)
+
+    def _nested_fluent_arg(e):
+        if e.is_fluent_exp() and any(_has_fluent(x) for x in e.args):
+            return True
+        return any(_nested_fluent_arg(x) for x in e.args)
+
+    if any(_nested_fluent_arg(tc) for tc in problem.trajectory_constraints):
+        tags.add("fluent-valued-argument-in-trajectory-constraint")
     for a in problem.actions:
         effs = list(a.effects)
         by_fluent = {}
